@@ -1950,3 +1950,16 @@ mut(
     '    was_none = was.get("default") in frozenset((cdd.shared.ast_utils.NoneStr, "None"))\n',
     mention=("unhashable",),
 )
+mut2(
+    "c19-refusal-skipped-for-every-later-phase-again",
+    "C19",
+    "C19.guard",
+    [
+        {
+            "file": "cdd/__main__.py",
+            "old": '            args.phase > 0\n            and args.emit_name.startswith("sqlalchemy")\n',
+            "new": "            args.phase > 0\n",
+        }
+    ],
+    mention=("--phase",),
+)
